@@ -192,7 +192,12 @@ class Executor(ExecResolve):
                 self.write_field(s, obj, tgt.attr, v)
                 yield s
         elif isinstance(tgt, ast.Subscript):
-            raise EngineError("subscript store")
+            for s1, d in self.eval(tgt.value, st):
+                if not self.is_dict(d):
+                    raise EngineError("subscript store on a non-dictionary")
+                for s2, k in self.eval(tgt.slice, s1):
+                    self.dict_store(s2, d, k, v)
+                    yield s2
         else:
             raise EngineError("assignment target")
 
